@@ -323,7 +323,7 @@ UNIT = {
                          decreases="link")],
              hints=[("body_start", None, "let ghost link0 = link;"),
                     ("loop_body_start", 0, "let ghost p0 = path@; let ghost l0 = link;"),
-                    ("loop_body_end", 0, "proof { lemma_rev_push(p0, node.element); assert(path_seq(l0) =~= path_seq(node.next).push(node.element)); }"),
+                    ("loop_body_end", 0, "proof { let e0 = l0->Some_0; lemma_rev_push(p0, e0.element); assert(path_seq(l0) =~= path_seq(e0.next).push(e0.element)); }"),
 ]),
         dict(file=EXE, kind="fn", name="field_error", container="GraphQLError", container_name="GraphQLError", wrap="impl GraphQLError", props=["C26"],
              rewrites=[("message: impl Into<String>", "message: String", 1)],
